@@ -33,6 +33,18 @@ CHECKS = {
         "bound_text": "5 token streams (0..7 tokens, one with a lexer error); histories of <=4 (quick) / <=6 (thorough) operations from a new lexer; 2..3 operations from any state satisfying the representation invariant (cursor and <=3 saved cursors symbolic); 28 combinator shapes (depth <= 3) over 3 stub sub-parsers that succeed/fail and consume 0..2 tokens as an arbitrary function of (stub, position)",
         "assumptions": ["Commit/Rollback are only called after a matching Snapshot (the combinators' usage)", "Not is exercised only under Assert, as in the grammar", "stub sub-parsers consume at least one token when they succeed"],
     },
+    "C18": {
+        "runs": [
+            {"harness": ["memory.VerifC18History"], "pkgs": ["./memory"], "fuel": 3000000,
+             "params_quick": {"ops": 3, "sizes": 3}, "params_thorough": {"ops": 4, "sizes": 5},
+             "covers": {"VerifC18History": ["done"]}},
+            {"harness": ["memory.VerifC18Frames", "memory.VerifC18Recycle"], "pkgs": ["./memory"], "fuel": 5000000,
+             "params_quick": {"sizes": 3, "depth": 2}, "params_thorough": {"sizes": 9, "depth": 2},
+             "covers": {"VerifC18Frames": ["done"], "VerifC18Recycle": ["done"]}},
+        ],
+        "bound_text": "operation histories of <=3 (quick) / <=4 (thorough) operations from New(); call nesting <=2/3; frame widths, operand counts and fork sizes drawn from {0,1,2,3,125..130,200,255..257,300} (quick: {1,128,200}); <=4 contexts; stored values symbolic 64-bit",
+        "assumptions": ["operations respect the VM's calling contract (arguments pushed before PushFrame, Pop only of pushed operands, slot indices inside the frame)"],
+    },
     "C14": {
         "runs": [
             {"harness": ["lexer.VerifC14Lex", "lexer.VerifC14Layout"], "pkgs": ["./lexer"], "fuel": 200000,
@@ -54,6 +66,7 @@ CHECKS = {
 }
 
 LEVEL_TEXT = {
+    "C18": "Every method of memory.Type is executed symbolically from SSA along solver-chosen operation sequences and call/fork scenarios whose sizes cross the 128-cell allocation boundaries, beside a capacity-free reference model; after every operation every variable of every live context is read back and must equal the last value written (values are symbolic, so equality is a solver verdict, and every Go panic path such as an index out of range must be infeasible). Sizes are enumerated from a boundary set, not symbolic: the engine has no symbolic-length slices.",
     "C13": "TLexer and every combinator are executed symbolically from SSA. For the lexer the cursor and saved cursors of the pre-state are solver variables constrained only by the representation invariant, so one-step results cover histories of any length; combinators run over the real TLexer with sub-parser outcomes as solver-chosen functions of position and are compared with an ordered-choice reference recogniser (accept/reject, results, final position, snapshot depth).",
     "C11": "Every method of the value algebra is executed symbolically from its SSA with operand kinds forked and all 64-bit payloads (ints, float bit patterns incl. NaN/inf/-0, string bytes) left symbolic; each documented law is an assertion the solver must prove unsat-negated on every path, and every Go panic path must be infeasible. Bounded only in container length/nesting.",
     "C14": "Lexer.Next and all state functions are executed symbolically over every input of the stated length with all bytes symbolic; span/text/gap/grouping/line-break/end-marker laws and invariance under inserted blanks/comments are solver-decided assertions; non-termination shows up as fuel exhaustion and is confirmed by native timeout.",
